@@ -182,7 +182,7 @@ def summarise_for(interp, node, st, lo, hi):
                     continue
                 seen.add(d.get_id())
                 if d.get_id() in allowed:
-                    for reg_ in (T.SumDef.registry, T.ExtDef.registry, T.FirstDef.registry):
+                    for reg_ in (T.SumDef.registry, T.ExtDef.registry, T.FirstDef.registry, T.ArgmaxDef.registry):
                         if d.get_id() in reg_:
                             df = reg_[d.get_id()]
                             formal.update(p_.decl().get_id() for p_ in df.params)
